@@ -376,6 +376,25 @@ pub fn joiner_enter(arity: usize) {
 pub fn call_lazy<T, F: FnOnce() -> T>(f: F) -> T {
     f()
 }
+/// Fixed-arity joiners that are not macros: a function (also reached through a generic path, a parenthesized closure, a
+/// call expression returning it) and a method (`receiver.method` spelling, as in `pool.join`).
+pub fn jf2<A: Stamp, B: Stamp>(a: A, b: B) -> (A, B) {
+    joiner_enter(2);
+    (a.stamp(), b.stamp())
+}
+pub struct JP;
+pub static JPS: JP = JP;
+impl JP {
+    pub fn j2<A: Stamp, B: Stamp>(&self, a: A, b: B) -> (A, B) {
+        jf2(a, b)
+    }
+}
+pub fn jp() -> JP {
+    JP
+}
+pub fn mkj<A: Stamp, B: Stamp>() -> fn(A, B) -> (A, B) {
+    jf2::<A, B>
+}
 
 /// Custom joiner (eager branches): logs its arity, evaluates branches in order, stamps values.
 /// An operand spelled as a macro call (`idm!(p(3))`): expands to its argument.
